@@ -319,12 +319,12 @@ def native_playback(hook_crate, hooks_tests):
     return dict(outcomes=outcomes, panics=[' '.join(x) for x in panics], aborted=aborted, cmd=' '.join(cmd), output='\n'.join(keep)[-6000:])
 
 
-def run_native(crate, harnesses, timeout_s=2400):
+def run_native(crate, harnesses, timeout_s=2400, _single=True):
     """Bounded stand-ins: `#[test]` functions inside the hook modules, compiled natively with cfg(kani) by
     `cargo kani playback` and executed on the real code (exhaustive enumeration of a small finite domain)."""
     env = dict(ENV, CARGO_TARGET_DIR=PLAYBACK_TARGET, RUST_BACKTRACE='0')
     cmd = ['cargo', 'kani', 'playback', '-Z', 'concrete-playback', '-Z', 'function-contracts', '-Z', 'stubbing', '-p', crate, '--lib', '--']
-    cmd += [h['name'] for h in harnesses] + ['--test-threads', '8']
+    cmd += [h['name'] for h in harnesses] + ['--test-threads', '8' if len(harnesses) > 1 else '1']
     t0 = time.time()
     try:
         p = subprocess.run(cmd, cwd=REPO, env=env, stdout=subprocess.PIPE, stderr=subprocess.STDOUT, text=True, timeout=timeout_s)
@@ -341,6 +341,18 @@ def run_native(crate, harnesses, timeout_s=2400):
     res = {}
     for mo in re.finditer(r'^test (\S+) \.\.\. (\w+)', out, re.M):
         res[mo.group(1).split('::')[-1]] = dict(status=mo.group(2), msg='')
+    # The test process may have died (abort / segfault in the code under test, e.g. heap corruption): no result line for
+    # the tests that were running.  Re-run every test without a result on its own; a test whose process dies again is a
+    # failure of THAT test (the real code crashed on its inputs), the others get their own verdict.
+    missing = [h['name'] for h in harnesses if h['name'] not in res or res[h['name']]['status'] not in ('ok', 'FAILED', 'ignored')]
+    if missing and _single and 'test result:' not in out.split('running ')[-1]:
+        for name in missing:
+            r1, _, _, logp1 = run_native(crate, [dict(name=name)], timeout_s=timeout_s, _single=False)
+            if name in r1 and r1[name]['status'] in ('ok', 'FAILED', 'ignored'):
+                res[name] = r1[name]
+            else:
+                tail = [l for l in open(logp1).read().split('\n') if l.strip() and not l.startswith('warning')][-6:]
+                res[name] = dict(status='FAILED', msg='the test process died while running this test alone (the code under test crashed): ' + ' | '.join(tail)[:1200])
     # failure messages:  ---- path::name stdout ----\n ... panicked at file:line:col:\n<message>
     for mo in re.finditer(r'---- (\S+) stdout ----\n(.*?)(?=\n---- |\nfailures:|\Z)', out, re.S):
         name = mo.group(1).split('::')[-1]
